@@ -74,6 +74,28 @@ var api = pipeAPI
 
 var progs = map[string]progFn{}
 
+// ctxOf: the kinds of context a program may be given
+func ctxOf(kind string) (context.Context, func()) {
+	type key struct{}
+	switch kind {
+	case "background":
+		return context.Background(), func() {}
+	case "todo":
+		return context.TODO(), func() {}
+	case "without-cancel":
+		p, cf := context.WithCancel(context.Background())
+		return context.WithoutCancel(p), cf
+	case "value-on-background":
+		return context.WithValue(context.Background(), key{}, 1), func() {}
+	case "value":
+		p, cf := context.WithCancel(context.Background())
+		return context.WithValue(p, key{}, 1), cf
+	case "deadline-far":
+		return context.WithTimeout(context.Background(), 1000*time.Hour)
+	}
+	return context.WithCancel(context.Background())
+}
+
 func thresholds(lo, hi int) []int {
 	var out []int
 	for _, v := range []int{0, 1, 2, 3, 5, 10, 100, 1000, 3000, 10000, 12345} {
@@ -295,6 +317,7 @@ func init() {
 }
 
 func progsC05(t *testing.T) {
+	progsArrowContext(t, "C05", []string{"LiftF", "TryF"})
 	progsHuge(t, "C05")
 	progsSlow(t, "C05")
 	progsInPlaceMonoid(t, "C05", []int{0})
@@ -400,6 +423,15 @@ func progsC08(t *testing.T) {
 				for _, end := range []string{"close", "cancel"} {
 					runProg(t, "C08", &caseT{Stage: "prog/new-busy-periods", N: n, Cap: cp, Mode: mode, End: end})
 				}
+			}
+		}
+	}
+	// contexts that can never be cancelled (their Done channel is nil) and contexts with values or deadlines: the
+	// sender's close is the only end of stream there, and everything sent before it is delivered
+	for _, kind := range []string{"background", "todo", "without-cancel", "value", "value-on-background", "deadline-far"} {
+		for _, n := range []int{0, 1, 2, 7, 100, 1025} {
+			for _, cp := range []int{0, 1, 8} {
+				runProg(t, "C08", &caseT{Stage: "prog/new-huge-backlog", N: n, Cap: cp, Arg: kind})
 			}
 		}
 	}
@@ -577,6 +609,7 @@ func progsC09(t *testing.T) {
 	progsPreCancel(t, "C09")
 	progsSlow(t, "C09")
 	progsSlowErrors(t, "C09", []string{"fork.Map", "fork.FMap"})
+	progsArrowContext(t, "C09", []string{"fork.LiftF"})
 	typedProgs(t, "C09")
 	for _, par := range widePars() {
 		for _, n := range []int{par, 2*par + 1, 4*par + 40, 1000} {
@@ -976,8 +1009,13 @@ func init() {
 			}
 			at = append(at, time.Since(start))
 		}
+		closedAt := time.Since(start)
 		if stopAt < 0 && len(at) != total {
 			return fmt.Sprintf("%d of %d elements delivered", len(at), total)
+		}
+		if stopAt < 0 && total > 0 && closedAt != at[total-1] {
+			// the producer closed the input right behind the last element: nothing is left to wait for
+			return fmt.Sprintf("ops=%d interval=%v, %d elements: the output closed at %v, %v after the last element was delivered, although the input was closed by then", ops, iv, total, closedAt, closedAt-at[total-1])
 		}
 		lo := 0
 		for i, ti := range at {
@@ -1434,7 +1472,7 @@ func init() {
 
 func progsC13Idle(t *testing.T) {
 	for _, ops := range []int{1, 2, 5, 16, 100} {
-		for _, q := range []int{0, 1, 4, 5, 13, 40} {
+		for _, q := range []int{0, 1, 4, 5, 13, 40, 262, 4001} {
 			for _, cp := range []int{0, 3} {
 				for _, mode := range []string{"", "background", "todo", "without-cancel", "deadline-far"} {
 					end := ""
